@@ -879,7 +879,7 @@ class Expr:
                 elif (e.k == 'downcast' and e.b == 'Continue' and e.a.k == 'call' and e.a.b
                       and (e.a.a.endswith('Try>::branch') or e.a.a.endswith('Try::branch'))):
                     # (branch(x) as Continue).0  ==  x?
-                    e = Expr('try', e.a.b[0], e.a.c)
+                    e = Expr('try', _ok_value(body, e.a.b[0], depth), e.a.c)
                 elif (e.k == 'downcast' and e.b == 'Ready' and e.a.k == 'call' and e.a.b
                       and e.a.c is not None and e.a.c.declared.endswith('Future::poll')):
                     # (poll(Pin(&mut awaitee)) as Ready).0  ==  awaitee.await
@@ -1014,6 +1014,55 @@ class Expr:
         if e.k == 'cast' and e.b.k == 'const':
             return e.b.b
         return None
+
+
+def _ok_value(body, arg, depth):
+    """for `x?` where x is a local with several definitions (the result of a spliced helper: one `Ok(v)` and any number of
+    error returns): the expression of the single Ok definition, so that the provenance of the success value stays visible.
+    Anything else is returned unchanged."""
+    a = arg
+    for _ in range(4):
+        st = a.strip()
+        if st.k != 'local' or not isinstance(st.a, int):
+            return arg
+        ds = body.defs().get(st.a, [])
+        if len(ds) < 2:
+            return arg
+        srcs = set()
+        oks = []
+        calls = []
+        other = False
+        for d in ds:
+            if d[0] == 's':
+                r = d[3]['r']
+                if r['k'] == 'use' and 'p' in r['o'] and len(r['o']['p']) == 1:
+                    srcs.add(r['o']['p'][0])
+                elif r['k'] == 'agg' and r.get('var') == 'Ok':
+                    oks.append(d)
+                elif r['k'] == 'agg' and r.get('var') == 'Err':
+                    pass
+                else:
+                    other = True
+            else:
+                t = d[3]
+                f = t.get('f', {})
+                if 'from_residual' not in (f.get('r') or f.get('fn') or ''):
+                    calls.append(d)
+        if other:
+            return arg
+        if len(oks) == 1 and not srcs and not calls:
+            # `Ok(v)?` is v
+            r = oks[0][3]['r']
+            return Expr.of_operand(body, r['ops'][0], max(depth - 1, 8)) if r.get('ops') else arg
+        if len(calls) == 1 and not srcs and not oks:
+            cs = CallSite(body, calls[0][1], calls[0][3])
+            inner = Expr('call', cs.callee, [Expr.of_operand(body, x, max(depth - 1, 8)) for x in cs.args], cs)
+            return inner
+        if len(srcs) == 1 and not oks and not calls:
+            a = Expr('local', next(iter(srcs)), body.local_name(next(iter(srcs))))
+            continue
+        return arg
+    return arg
 
 
 def _awaitee(body, pin_expr, depth):
